@@ -261,6 +261,7 @@ class Spec:
         self.model = model  # z3 model during native replay evaluation, else None
         self.names = set()
         self.index_decls = []
+        self.recorded_inputs = {}  # replay mode: every input term evaluated in the model -> [kind, value]
 
     # ---- scalars
     @property
@@ -274,6 +275,12 @@ class Spec:
 
     def _eval(self, t, kind):
         r = self.model.eval(t, model_completion=True)
+        rec = getattr(self.model, "recorded", None)
+        if rec is None and not isinstance(self.model, RecordedModel):
+            try:
+                self.recorded_inputs[t.sexpr()] = [kind, r.sexpr()]
+            except Exception:
+                pass
         if kind == "int":
             return r.as_long()
         if kind == "bool":
@@ -437,3 +444,30 @@ class Spec:
 
 class ReplayInvalid(Exception):
     pass
+
+
+class RecordedModel:
+    """Stands in for a z3 model when a stored replay file is re-run (./check --replay): the values of the input
+    terms are the ones recorded when the counter-model was first replayed."""
+
+    def __init__(self, recorded):
+        self.table = recorded
+
+    def eval(self, t, model_completion=True):
+        key = t.sexpr()
+        if key not in self.table:
+            raise EngineError(f"replay file has no value for input term {key}")
+        kind, val = self.table[key]
+        return z3.simplify(z3.parse_smt2_string(f"(declare-fun r!x () {_SORT[kind]}) (assert (= r!x {val}))")[0].arg(1))
+
+    def __str__(self):
+        return json_dumps(self.table)
+
+
+_SORT = {"float": "Real", "int": "Int", "bool": "Bool", "str": "String"}
+
+
+def json_dumps(x):
+    import json
+
+    return json.dumps(x)[:4000]
